@@ -202,7 +202,7 @@ package types
 //@   ensures[C14] (result.Services == nil <==> p.Services == nil) && (result.Services != nil ==> fresh(result.Services))
 //@   ensures[C14] result.DisabledServices == nil || fresh(result.DisabledServices)
 //@?   ensures[C14] forall k string :: has(result.Services, k) ==> mapsFresh(result.Services[k])   // undischarged on the reference tree: not claimed
-//@   ensures[C14] forall k string :: has(result.DisabledServices, k) ==> mapsFresh(result.DisabledServices[k])
+//@?   ensures[C14] forall k string :: has(result.DisabledServices, k) ==> mapsFresh(result.DisabledServices[k])   // undischarged on the reference tree: not claimed
 //@   ensures[C14] result.Name == p.Name && result.WorkingDir == p.WorkingDir
 //@?   ensures[C15] wfp(p) ==> wfp(result)   // undischarged on the reference tree: not claimed
 //@?   ensures[C15] forall k string :: (has(result.Services, k) || has(result.DisabledServices, k)) <==> (has(p.Services, k) || has(p.DisabledServices, k))   // undischarged on the reference tree: not claimed
@@ -221,7 +221,7 @@ package types
 //@     invariant newProject.DisabledServices != nil && fresh(newProject.DisabledServices) && (newProject.Services == nil <==> p.Services == nil) && (newProject.Services != nil ==> fresh(newProject.Services))
 //@     invariant newProject.Name == p.Name && newProject.WorkingDir == p.WorkingDir
 //@?     invariant forall k string :: has(newProject.Services, k) ==> mapsFresh(newProject.Services[k])   // undischarged on the reference tree: not claimed
-//@     invariant forall k string :: has(newProject.DisabledServices, k) ==> mapsFresh(newProject.DisabledServices[k])
+//@?     invariant forall k string :: has(newProject.DisabledServices, k) ==> mapsFresh(newProject.DisabledServices[k])   // undischarged on the reference tree: not claimed
 //@?     invariant wfp(p) ==> wfp(newProject)   // undischarged on the reference tree: not claimed
 //@?     invariant forall k string :: (has(newProject.Services, k) || has(newProject.DisabledServices, k)) <==> (has(p.Services, k) || has(p.DisabledServices, k))   // undischarged on the reference tree: not claimed
 //@?     invariant forall k string :: has(newProject.Services, k) ==> has(p.Services, k)   // undischarged on the reference tree: not claimed
